@@ -4,8 +4,8 @@ The harness owns the encoder, so the list of parts it was given is the oracle; n
 """
 
 BOUNDARIES = [b"b", b"boundary", b"----WebKitFormBoundary7MA4YWxkTrZu0gW", b"a-b", b"-", b"--", b"x y", b"'()+_,./:=?", b"B" * 70, b"0"]
-NAMES = ["f", "name with space", "n;x", "k=v", "naïve", "中文", "a,b", "x'y", " lead", "trail ", "", "file[]", "a;b;c", ";;", "x;y=z;w"]
-FILENAMES = ["fn.txt", "", "a;b.txt", "файл.bin", "sp ace.tar.gz", "x=y", "semi;colon", "jan;feb;mar.csv", "a;b;c;d", "; filename=evil"]
+NAMES = ["f", "name with space", "n;x", "k=v", "naïve", "中文", "a,b", "x'y", " lead", "trail ", "", "file[]", "a;b;c", ";;", "x;y=z;w", "%22pct%0D%0A", "100%", "a%41b"]
+FILENAMES = ["fn.txt", "", "a;b.txt", "файл.bin", "sp ace.tar.gz", "x=y", "semi;colon", "jan;feb;mar.csv", "a;b;c;d", "; filename=evil", "q%22.txt", "nl%0Ax%0D.bin"]
 CTYPES = ["application/octet-stream", "text/plain; charset=x", None, "image/png"]
 
 
@@ -41,9 +41,15 @@ def gen_form(rng, max_parts=4, boundary=None):
     for _ in range(rng.randrange(0, max_parts + 1)):
         isfile = rng.random() < 0.55
         c = gen_content(rng, boundary, not isfile)
-        parts.append({"name": rng.choice(NAMES), "filename": rng.choice(FILENAMES) if isfile else None, "content": c,
-                      "ctype": rng.choice(CTYPES) if isfile else None,
-                      "extra": rng.random() < 0.3, "fold": rng.random() < 0.15})
+        p = {"name": rng.choice(NAMES), "filename": rng.choice(FILENAMES) if isfile else None, "content": c,
+             "ctype": rng.choice(CTYPES) if isfile else None,
+             "extra": rng.random() < 0.3, "fold": rng.random() < 0.15}
+        if rng.random() < 0.25:
+            p["cd"] = rng.randrange(1, 6)  # a legal but non-canonical spelling of Content-Disposition
+        if isfile and rng.random() < 0.06:
+            # a client that ignores the declared charset: file name sent as Latin-1 bytes (not valid UTF-8)
+            p["filename"], p["latin1_fn"] = rng.choice(["caf\xe9.txt", "\xf1.bin"]), True
+        parts.append(p)
     return {"boundary": boundary, "parts": parts, "preamble": rng.choice([b"", b"", b"preamble", b"pre\r\namble"]),
             "epilogue": rng.choice([b"", b"", b"epilogue\r\n", b"\r\n"]), "pad": rng.choice([b"", b"", b" ", b" \t"])}
 
@@ -57,10 +63,7 @@ def encode(form):
     spans = []
     for p in form["parts"]:
         out += b"--" + b + pad + b"\r\n"
-        cd = b'Content-Disposition: form-data; name="' + p["name"].encode("utf-8") + b'"'
-        if p["filename"] is not None:
-            cd += b'; filename="' + p["filename"].encode("utf-8") + b'"'
-        hs = [cd]
+        hs = [content_disposition(p)]
         if p.get("ctype"):
             hs.append(b"Content-Type: " + p["ctype"].encode())
         if p.get("extra"):
@@ -77,9 +80,48 @@ def encode(form):
     return bytes(out), spans
 
 
+TOKEN = set("abcdefghijklmnopqrstuvwxyzABCDEFGHIJKLMNOPQRSTUVWXYZ0123456789!#$%&'*+-.^_`|~")
+
+
+def content_disposition(p):
+    """the part's Content-Disposition line; p["cd"] selects one of several equivalent spellings"""
+    style = p.get("cd", 0)
+    name = p["name"].encode("utf-8")
+    fn = None if p["filename"] is None else p["filename"].encode("latin-1" if p.get("latin1_fn") else "utf-8")
+
+    def param(key, raw, text):
+        if style == 5 and text and all(c in TOKEN for c in text):
+            return key + b"=" + raw  # token form, no quotes
+        return key + b'="' + raw + b'"'
+    kn, kf, hn = b"name", b"filename", b"Content-Disposition"
+    if style == 4:
+        kn, kf, hn = b"Name", b"FileName", b"content-disposition"
+    ps = [param(kn, name, p["name"])]
+    if fn is not None:
+        ps.append(param(kf, fn, p["filename"]))
+    if style == 2:
+        ps.reverse()  # filename first
+    if style == 3:
+        ps.insert(1, b"foo=bar")  # an unknown parameter in between
+    sep = b";" if style == 1 else b"; "
+    return hn + b": form-data" + sep + sep.join(ps)
+
+
+class AnyText:
+    """stands for a name the property does not determine (a header line that is not valid in the declared charset)"""
+    def __eq__(self, other):
+        return isinstance(other, str)
+
+    def __hash__(self):
+        return 0
+
+    def __repr__(self):
+        return "<any text>"
+
+
 def expected(form):
     """what every access path must return: (name, filename|None, content bytes, part content-type|None)"""
-    return [(p["name"], p["filename"], p["content"], p.get("ctype")) for p in form["parts"]]
+    return [((AnyText(), AnyText()) if p.get("latin1_fn") else (p["name"], p["filename"])) + (p["content"], p.get("ctype")) for p in form["parts"]]
 
 
 def content_type_header(form, quoted=None):
